@@ -193,8 +193,7 @@ theorem C16_ipv4_kept (o : Oracles) (s : Str) (v : Bool) (o4 : List Nat) :
       have hd : isDigitC (48 + d % 10) = true := by simp [isDigitC]; omega
       simp only [isDigitChar, this, ↓reduceIte, hd]
       split <;> rfl
-  rw [encodeHost_eq, hlook]
-  simp [bind, Except.bind, hr, pure, Except.pure]
+  exact encodeHost_ip hlook hr (zoneBad_of_no_sep v (by rw [hp]))
 
 /-! ### IPv6 literals -/
 
@@ -247,10 +246,12 @@ theorem C16_ipv6_bracketed (o : Oracles) (s : Str) (v : Bool) (h8 : List Nat) (r
   have hr : ipRes s = some ([91] ++ ipv6ToStr h8 ++ (if (partition 37 s).2.1 then [37] ++ (partition 37 s).2.2 else []) ++ [93]) := by
     simp only [ipRes, parseIP, h4, h6, Option.map_some]
     split <;> simp
-  rw [encodeHost_eq, hlook] at he
-  simp only [bind, Except.bind, ↓reduceIte, hr, pure, Except.pure, Except.ok.injEq] at he
-  subst he
-  refine ⟨by simp, by rw [List.getLast?_append]; rfl, rfl⟩
+  rcases encodeHost_casesV he with ⟨hr', _⟩ | ⟨hno | hno, _⟩
+  · rw [hr] at hr'
+    cases hr'
+    refine ⟨by simp, by rw [List.getLast?_append]; rfl, rfl⟩
+  · rw [hr] at hno; cases hno
+  · rw [hlook] at hno; cases hno
 
 /-! ### str-level -/
 
@@ -385,8 +386,32 @@ theorem C16_ipv6_idem (o : Oracles) (s : Str) (v : Bool) (h8 : List Nat) (r : St
     rw [hpart]
     conv => rhs; rw [hr]
     cases (partition 37 s).2.1 <;> simp
-  rw [encodeHost_eq, hlook]
-  simp only [bind, Except.bind, ↓reduceIte, hres, pure, Except.pure]
+  have hz : zoneBad ((r.drop 1).dropLast) v = false := by
+    have hr0 : ipRes s = some r := by
+      rw [hr]
+      simp only [ipRes, parseIP, h4, h6, Option.map_some]
+      split <;> simp
+    have hz0 : zoneBad s v = false := by
+      rcases encodeHost_casesV he with ⟨_, hz⟩ | ⟨hno | hno, _⟩
+      · exact hz
+      · rw [hr0] at hno; cases hno
+      · have hc : 58 ∈ s := partition_fst_sub 37 s 58 (parseIPv6_colon h6)
+        have hm : mem 58 s = true := by rw [mem_eq]; simpa using hc
+        unfold looksIP at hno
+        cases hl : s.getLast? with
+        | none =>
+          rw [List.getLast?_eq_none_iff] at hl
+          subst hl; simp at hc
+        | some l =>
+          rw [hl] at hno
+          simp only [hm, ↓reduceIte] at hno
+          cases hno
+    unfold zoneBad at hz0 ⊢
+    rw [hpart]
+    cases hsep : (partition 37 s).2.1 with
+    | false => simp
+    | true => simpa [hsep] using hz0
+  exact encodeHost_ip hlook hres hz
 
 /-! ### the headline: results are lower-case ASCII -/
 
@@ -452,6 +477,268 @@ theorem C16_result_lower_ascii (o : Oracles) (h : Str) (v : Bool) (r : Str) (h37
           intro c hc
           exact C16_regNameChars_lower (notRegName_spec _ (by simpa using hn) c hc)
 
+/-! ### the zone id of an IP literal is validated -/
+
+namespace HostLemmas
+
+theorem notRegName_append_false {a b : Str} (h : notRegName (a ++ b) = false) : notRegName b = false := by
+  induction a with
+  | nil => simpa using h
+  | cons x xs ih => exact ih (notRegName_cons_false h).2
+
+theorem partition_sep_decomp (c : Nat) (s : Str) (h : (partition c s).2.1 = true) :
+    s = (partition c s).1 ++ c :: (partition c s).2.2 := by
+  induction s with
+  | nil => simp [partition] at h
+  | cons x xs ih =>
+    by_cases hx : x = c
+    · subst hx; simp [partition]
+    · simp only [partition, hx, ↓reduceIte] at h ⊢
+      have := ih h
+      simp only [List.cons_append, List.cons.injEq, true_and]
+      exact this
+
+/-- what a zone that passed the screen can contain -/
+theorem zone_chars {z : Str} (h : notRegName (lower z) = false) :
+    ∀ c ∈ z, c < 128 ∧ c ≠ 64 ∧ c ≠ 47 ∧ c ≠ 63 ∧ c ≠ 35 ∧ c ≠ 58 ∧ c ≠ 91 ∧ c ≠ 93 ∧ c ≠ 32 := by
+  intro c hc
+  have hm : lowerC c ∈ lower z := by simp only [lower, List.mem_map]; exact ⟨c, hc, rfl⟩
+  have key : ∀ k, k = 37 ∨ mem k Gen.regNameChars = true →
+      k < 128 ∧ k ≠ 64 ∧ k ≠ 47 ∧ k ≠ 63 ∧ k ≠ 35 ∧ k ≠ 58 ∧ k ≠ 91 ∧ k ≠ 93 ∧ k ≠ 32 := by
+    intro k hk
+    rcases hk with rfl | hk
+    · omega
+    · refine ⟨((C16_regNameChars_rfc k).1 hk).1, ?_, ?_, ?_, ?_, ?_, ?_, ?_, ?_⟩ <;>
+        (intro e; subst e; revert hk; decide)
+  have := key _ (notRegName_spec _ h _ hm)
+  revert this
+  unfold lowerC
+  split <;> omega
+
+/-- the characters of the IP-branch text: brackets, the address, `%`, and the zone -/
+theorem ipRes_chars {h r : Str} (hr : ipRes h = some r) :
+    ∀ c ∈ r, c = 91 ∨ c = 93 ∨ c = 58 ∨ c = 46 ∨ c = 37 ∨ isDigitC c = true ∨ (97 ≤ c ∧ c ≤ 102) ∨
+      ((partition 37 h).2.1 = true ∧ c ∈ (partition 37 h).2.2) := by
+  unfold ipRes at hr
+  cases h4 : parseIPv4 (partition 37 h).1 with
+  | some o4 =>
+    simp only [parseIP, h4, Option.some.injEq] at hr
+    rw [(C16_ipv4_canonical _ o4 h4).1] at hr
+    have hch := parseIPv4_chars h4
+    intro c hc
+    rw [← hr] at hc
+    split at hc
+    · rename_i hsep
+      simp only [List.mem_append, List.mem_cons, List.not_mem_nil, or_false] at hc
+      rcases hc with (hc | rfl) | hc
+      · rcases hch c hc with rfl | hd
+        · simp
+        · simp [hd]
+      · simp
+      · simp [hsep, hc]
+    · rcases hch c hc with rfl | hd
+      · simp
+      · simp [hd]
+  | none =>
+    cases h6 : parseIPv6 (partition 37 h).1 with
+    | none => simp [parseIP, h4, h6] at hr
+    | some h8 =>
+      simp only [parseIP, h4, h6, Option.map_some, Option.some.injEq] at hr
+      intro c hc
+      rw [← hr] at hc
+      have htxt : c ∈ ipv6ToStr h8 → c = 91 ∨ c = 93 ∨ c = 58 ∨ c = 46 ∨ c = 37 ∨ isDigitC c = true ∨ (97 ≤ c ∧ c ≤ 102) ∨
+          ((partition 37 h).2.1 = true ∧ c ∈ (partition 37 h).2.2) := by
+        intro hc
+        rcases C16_ipv6_text_lower h8 c hc with rfl | hd | hd
+        · simp
+        · simp [hd]
+        · simp [hd]
+      split at hc
+      · rename_i hsep
+        simp only [List.mem_append, List.mem_cons, List.not_mem_nil, or_false] at hc
+        rcases hc with (((rfl | hc) | rfl) | hc) | rfl
+        · simp
+        · exact htxt hc
+        · simp
+        · simp [hsep, hc]
+        · simp
+      · simp only [List.mem_append, List.mem_cons, List.not_mem_nil, or_false] at hc
+        rcases hc with (rfl | hc) | rfl
+        · simp
+        · exact htxt hc
+        · simp
+
+theorem zoneBad_true_false {h : Str} (hz : zoneBad h true = false) (hsep : (partition 37 h).2.1 = true) :
+    notRegName (lower (partition 37 h).2.2) = false := by
+  simpa [zoneBad, hsep] using hz
+
+/-- every accepted validated host: the IP-branch text with a screened zone, or a string passing `NOT_REG_NAME` -/
+theorem validated_cases {o : Oracles} {h r : Str} (he : encodeHost o h true = .ok r) :
+    (ipRes h = some r ∧ zoneBad h true = false) ∨ (notRegName r = false ∧ (isAscii h = true → r = lower h)) := by
+  rcases encodeHost_casesV he with hip | ⟨_, hreg⟩
+  · exact Or.inl hip
+  · right
+    unfold regPath at hreg
+    split at hreg
+    · rename_i ha
+      simp only [Bool.true_and] at hreg
+      split at hreg
+      · cases hreg
+      · rename_i hn
+        cases hreg
+        exact ⟨by simpa using hn, fun _ => rfl⟩
+    · rename_i hna
+      cases hi : idnaEncode o h with
+      | error e => rw [hi] at hreg; cases hreg
+      | ok x =>
+        rw [hi] at hreg
+        simp only [bind, Except.bind, Bool.true_and] at hreg
+        split at hreg
+        · cases hreg
+        · rename_i hn
+          cases hreg
+          exact ⟨by simpa using hn, fun ha => absurd ha hna⟩
+
+end HostLemmas
+
+/-- a validated ASCII host whose part before `%` is an IP literal never carries a zone id with a character
+    outside the reg-name grammar.  (For a NON-ASCII host the statement is false: see
+    `C16_zone_validated_needs_ascii`.) -/
+theorem C16_zone_validated (o : Oracles) (h r : Str) (ha : isAscii h = true) : encodeHost o h true = .ok r →
+    (∃ ip, parseIP (partition 37 h).1 = some ip) → (partition 37 h).2.1 = true →
+    notRegName (lower (partition 37 h).2.2) = false := by
+  intro he _ hsep
+  rcases validated_cases he with ⟨_, hz⟩ | ⟨hn, hr⟩
+  · exact zoneBad_true_false hz hsep
+  · -- the host went down the reg-name path: the whole lower-cased host passed the screen, hence its suffix
+    rw [hr ha, partition_sep_decomp 37 h hsep] at hn
+    have : lower ((partition 37 h).1 ++ 37 :: (partition 37 h).2.2) =
+        (lower (partition 37 h).1 ++ [37]) ++ lower (partition 37 h).2.2 := by
+      simp [lower, lowerC]
+    rw [this] at hn
+    exact notRegName_append_false hn
+
+/-- without the ASCII hypothesis: either the zone is clean, or the host is non-ASCII, did not "look like an IP"
+    (no ':' and the last character is not a digit) and the result is the IDNA encoding, which passed the screen -/
+theorem C16_zone_validated_general (o : Oracles) (h r : Str) : encodeHost o h true = .ok r →
+    (∃ ip, parseIP (partition 37 h).1 = some ip) → (partition 37 h).2.1 = true →
+    notRegName (lower (partition 37 h).2.2) = false ∨
+      (isAscii h = false ∧ looksIP o h = .ok false ∧ idnaEncode o h = .ok r ∧ notRegName r = false) := by
+  intro he hip hsep
+  cases ha : isAscii h with
+  | true => exact Or.inl (C16_zone_validated o h r ha he hip hsep)
+  | false =>
+    rcases encodeHost_casesV he with ⟨_, hz⟩ | ⟨hno, hreg⟩
+    · exact Or.inl (zoneBad_true_false hz hsep)
+    · right
+      have hl : looksIP o h = .ok false := by
+        rcases hno with hno | hno
+        · obtain ⟨ip, hip⟩ := hip
+          cases ip <;> simp [ipRes, hip] at hno
+        · exact hno
+      refine ⟨rfl, hl, ?_⟩
+      simp only [regPath, ha, Bool.false_eq_true, ↓reduceIte, Bool.true_and] at hreg
+      cases hi : idnaEncode o h with
+      | error e => rw [hi] at hreg; cases hreg
+      | ok x =>
+        rw [hi] at hreg
+        simp only [bind, Except.bind] at hreg
+        split at hreg
+        · cases hreg
+        · rename_i hn
+          cases hreg
+          exact ⟨rfl, by simpa using hn⟩
+
+/-- the oracle answers of CPython 3.12 for the host `"1.2.3.4%aaé"`: `idna.encode(…, uts46=True)` raises
+    (`%` is not allowed), the stdlib codec gives `1.2.3.xn--4%aa-epa`, and `"é".isdigit()` is `False` -/
+def zoneOracle : Oracles :=
+  { Oracles.empty with
+    isDigitU := fun _ => some false
+    idnaEnc := fun _ => some none
+    idnaEncStd := fun _ => some (some "1.2.3.xn--4%aa-epa".toStr) }
+
+/-- `C16_zone_validated` is false without `isAscii h`: `"1.2.3.4%aaé"` does not end in a digit and has no ':',
+    so it is IDNA-encoded as a registered name although `1.2.3.4` is an IP literal and the zone `aaé`
+    fails the reg-name screen.  (The result is a plain reg-name: nothing is injected.) -/
+theorem C16_zone_validated_needs_ascii :
+    let h : Str := "1.2.3.4%aa".toStr ++ [233]
+    encodeHost zoneOracle h true = .ok "1.2.3.xn--4%aa-epa".toStr ∧
+    parseIP (partition 37 h).1 = some (.v4 [1, 2, 3, 4]) ∧ (partition 37 h).2.1 = true ∧
+    notRegName (lower (partition 37 h).2.2) = true := by
+  refine ⟨by rfl, by decide, by decide, by decide⟩
+
+/-- an accepted `host=` argument (validation on) never yields a result containing '@', '/', '?', '#'
+    — the four characters that change how the authority is parsed — for ANY input -/
+theorem C16_validated_never_injects (o : Oracles) (h r : Str) : encodeHost o h true = .ok r →
+    64 ∉ r ∧ 47 ∉ r ∧ 63 ∉ r ∧ 35 ∉ r := by
+  intro he
+  have key : ∀ k, (k = 64 ∨ k = 47 ∨ k = 63 ∨ k = 35) → k ∉ r := by
+    intro k hk hkr
+    rcases validated_cases he with ⟨hip, hz⟩ | ⟨hn, _⟩
+    · rcases ipRes_chars hip k hkr with h | h | h | h | h | h | h | ⟨hsep, hkz⟩
+      · omega
+      · omega
+      · omega
+      · omega
+      · omega
+      · simp [isDigitC] at h; omega
+      · omega
+      · have := zone_chars (zoneBad_true_false hz hsep) k hkz
+        omega
+    · rcases notRegName_spec r hn k hkr with h | h
+      · omega
+      · rcases hk with rfl | rfl | rfl | rfl <;> revert h <;> decide
+  exact ⟨key 64 (by simp), key 47 (by simp), key 63 (by simp), key 35 (by simp)⟩
+
+/-- an accepted `host=` argument (validation on) always yields an ASCII result, for ANY input
+    (the zone id of an IP literal included) -/
+theorem C16_validated_ascii (o : Oracles) (h r : Str) : encodeHost o h true = .ok r → ∀ c ∈ r, c < 128 := by
+  intro he c hc
+  rcases validated_cases he with ⟨hip, hz⟩ | ⟨hn, _⟩
+  · rcases ipRes_chars hip c hc with h | h | h | h | h | h | h | ⟨hsep, hkz⟩
+    · omega
+    · omega
+    · omega
+    · omega
+    · omega
+    · simp [isDigitC] at h; omega
+    · omega
+    · exact (zone_chars (zoneBad_true_false hz hsep) c hkz).1
+  · exact (C16_regNameChars_lower (notRegName_spec r hn c hc)).1
+
+/-- with validation on, the only characters of a result outside `reg-name` are the brackets and colons of an
+    IPv6 literal; in particular no space, and '[' , ']' , ':' only in the IP branch -/
+theorem C16_validated_chars (o : Oracles) (h r : Str) : encodeHost o h true = .ok r →
+    32 ∉ r ∧ ((∃ c ∈ r, c = 58 ∨ c = 91 ∨ c = 93) → ∃ ip, parseIP (partition 37 h).1 = some ip) := by
+  intro he
+  rcases validated_cases he with ⟨hip, hz⟩ | ⟨hn, _⟩
+  · constructor
+    · intro hc
+      rcases ipRes_chars hip 32 hc with h | h | h | h | h | h | h | ⟨hsep, hkz⟩
+      · omega
+      · omega
+      · omega
+      · omega
+      · omega
+      · simp [isDigitC] at h
+      · omega
+      · have := zone_chars (zoneBad_true_false hz hsep) 32 hkz
+        omega
+    · intro _
+      cases hp : parseIP (partition 37 h).1 with
+      | some ip => exact ⟨ip, rfl⟩
+      | none => simp [ipRes, hp] at hip
+  · have key : ∀ k, k ≠ 37 → mem k Gen.regNameChars = false → k ∉ r := by
+      intro k h1 h2 hk
+      rcases notRegName_spec r hn k hk with h | h
+      · exact h1 h
+      · rw [h2] at h; cases h
+    refine ⟨key 32 (by decide) (by decide), ?_⟩
+    rintro ⟨c, hc, rfl | rfl | rfl⟩
+    · exact absurd hc (key 58 (by decide) (by decide))
+    · exact absurd hc (key 91 (by decide) (by decide))
+    · exact absurd hc (key 93 (by decide) (by decide))
+
 /-- `build()` validates the `host=` argument: it succeeds only if `_encode_host(host, validate_host=True)` does -/
 theorem C16_build_validates (e : Env) (a : BuildArgs) (u : Url) (henc : a.encoded = false)
     (hauth : a.authority = []) (hhost : a.host ≠ []) :
@@ -499,6 +786,17 @@ example : parseIPv4 "01.2.3.4".toStr = none := by decide
 example : parseIPv4 "256.2.3.4".toStr = none := by decide
 -- "01.2.3.4" ends with a digit, is not an IP literal, and is kept as a registered name
 example : encodeHost Oracles.empty "01.2.3.4".toStr true = .ok "01.2.3.4".toStr := by rfl
+-- the zone id of an IP literal is validated (and only with validation on)
+example : encodeHost Oracles.empty "1.2.3.4%@evil.com:80".toStr true = .error .valueError := by rfl
+example : encodeHost Oracles.empty "1.2.3.4%@evil.com:80".toStr false = .ok "1.2.3.4%@evil.com:80".toStr := by rfl
+example : encodeHost Oracles.empty "fe80::1%eth/0".toStr true = .error .valueError := by rfl
+example : encodeHost Oracles.empty "fe80::1%eth0?x".toStr true = .error .valueError := by rfl
+example : encodeHost Oracles.empty "1.2.3.4%eth0".toStr true = .ok "1.2.3.4%eth0".toStr := by rfl
+-- `C16_zone_validated` is not vacuous
+example : isAscii "fe80::1%Eth0".toStr = true ∧
+    encodeHost Oracles.empty "fe80::1%Eth0".toStr true = .ok "[fe80::1%Eth0]".toStr ∧
+    (∃ ip, parseIP (partition 37 "fe80::1%Eth0".toStr).1 = some ip) ∧ (partition 37 "fe80::1%Eth0".toStr).2.1 = true :=
+  ⟨by decide, by rfl, ⟨.v6 [0xfe80, 0, 0, 0, 0, 0, 0, 1], by decide⟩, by decide⟩
 -- hypotheses of the main theorems are satisfiable
 example : isAscii "EXAMPLE.com".toStr = true ∧ parseIP (partition 37 "EXAMPLE.com".toStr).1 = none := by decide
 example : parseIPv4 (partition 37 "fe80::1%eth0".toStr).1 = none ∧
